@@ -128,10 +128,7 @@ Check (C05_is_empty_sound : forall B ps sched0 sched t l b0, 1 <= B ->
   let h := heap (fst c) in
   let c' := fst (exec (step B true true) site c sched) in
   forall l' rs1 r, nth_error (snd c') t = Some l' -> results l' = rs1 ++ REmpty r :: results l ->
-  (r = true ->
-     (forall i, ~ pub h b0 i) /\
-     (forall nb, bnxt (getb h b0) = Some nb -> (forall i, ~ pub h nb i) /\ B < length (snd c)) /\
-     (length (snd c) <= B -> forall d i, Reach h (Some b0) d -> ~ pub h d i)) /\
+  (r = true -> forall d i, Reach h (Some b0) d -> ~ pub h d i) /\
   (r = false -> exists d i, pub (heap (fst c')) d i)).
 Print Assumptions C05_is_empty_sound.
 Check (C05_block_order : forall B fxc ps sched0, 1 <= B ->
@@ -224,11 +221,14 @@ Check (C05_spec_conservation_on_model : forall c : case, known_class c = None ->
   nodupb rhs && forallb (fun i => memb (px i) rhs) (pinfos tr 0 (progs_of c))
   && Nat.eqb (length rhs) (length (pinfos tr 0 (progs_of c))) = true).
 Print Assumptions C05_spec_conservation_on_model.
-Check (C05_is_empty_true_beyond_B_threads : length (fst many_case) = 67 /\ known_class many_case = None /\
+Check (C05_is_empty_beyond_B_threads_refuted_before_fix : length (fst many_case) = 67 /\ known_class many_case = None /\
+  (let cf := fst (exec_full (step_lookback1 BS) site rr_fuel (init_config (progs_of many_case)) (map N.to_nat (snd many_case))) in
+   option_map results (nth_error (snd cf) 66) = Some [REmpty true] /\
+   length (concat (final_data BS true true (fst cf))) = 129) /\
   (let '(_, rss, done, final, _) := run_case many_case in
-   nth 66 rss [] = [REmpty true] /\ done = true /\ length (concat final) = 129) /\
-  spec_ok many_case (run_case many_case) = false).
-Print Assumptions C05_is_empty_true_beyond_B_threads.
+   nth 66 rss [] = [REmpty false] /\ done = true /\ length (concat final) = 129) /\
+  spec_ok many_case (run_case many_case) = true).
+Print Assumptions C05_is_empty_beyond_B_threads_refuted_before_fix.
 Check (C05_race_example_run_ok : length (fst race_case) <= 64 /\ known_class race_case = None /\ spec_ok race_case (run_case race_case) = true).
 Print Assumptions C05_race_example_run_ok.
 Check (C05_spec_pub_positions_on_model : forall c : case,
